@@ -424,10 +424,15 @@ class POP3CommandHandler:
         msg_bytes = msg_as_bytes(msg)
         size = len(msg_bytes)
         msg_bytes = dot_stuff(msg_bytes)
+
+        # The terminating `.CRLF` has to start on a line of its own. Only add
+        # a CRLF if the message does not already end with one, otherwise the
+        # client is sent two octets more than the size we announced.
+        #
+        if msg_bytes and not msg_bytes.endswith(b"\r\n"):
+            msg_bytes += b"\r\n"
         await self.client.push(
-            f"+OK {size} octets\r\n".encode("latin-1")
-            + msg_bytes
-            + b"\r\n.\r\n"
+            f"+OK {size} octets\r\n".encode("latin-1") + msg_bytes + b".\r\n"
         )
         return True
 
@@ -541,7 +546,9 @@ class POP3CommandHandler:
         truncated_body = b"\r\n".join(body_lines[:num_lines])
         result = headers + b"\r\n" + truncated_body
         result = dot_stuff(result)
-        await self.client.push(b"+OK\r\n" + result + b"\r\n.\r\n")
+        if result and not result.endswith(b"\r\n"):
+            result += b"\r\n"
+        await self.client.push(b"+OK\r\n" + result + b".\r\n")
         return True
 
     ##################################################################
